@@ -1,0 +1,7 @@
+//go:build !verif
+
+package filesystem
+
+// verifAtomicStep is the step hook of the external verification harness.
+// Without the "verif" build tag it does nothing.
+func verifAtomicStep(_ int, _ string) {}
